@@ -980,6 +980,15 @@ udp_pipe_send(void *arg, nni_aio *aio)
 
 	nni_aio_reset(aio);
 	nni_mtx_lock(&ep->mtx);
+	// We always complete at once, but the aio must be started all the
+	// same: a stopped aio has to be refused (the message stays with it),
+	// and nni_aio_stop has to see the completion that is on its way.
+	// The protocol's send callback asks for the next message; without
+	// this a closed pipe keeps sending, even after it has been freed.
+	if (!nni_aio_start(aio, NULL, NULL)) {
+		nni_mtx_unlock(&ep->mtx);
+		return;
+	}
 	if ((nni_msg_len(msg) + nni_msg_header_len(msg)) > p->sndmax) {
 		nni_mtx_unlock(&ep->mtx);
 		// rather failing this with an error, we just drop it on
@@ -1033,18 +1042,19 @@ udp_pipe_recv(void *arg, nni_aio *aio)
 		nni_aio_finish_error(aio, NNG_ECLOSED);
 		return;
 	}
+	if (!nni_aio_start(aio, udp_pipe_recv_cancel, p)) {
+		nni_mtx_unlock(&ep->mtx);
+		return;
+	}
 	if (nni_list_empty(&p->rx_aios) && !nni_lmq_empty(&p->rx_mq)) {
 		// A message arrived while nobody was receiving; it is not
 		// looked at again until the next datagram comes in, so take
-		// it now.
+		// it now.  (Only after the aio has been started: nni_aio_stop
+		// must see this completion.)
 		nni_msg *msg;
 		nni_lmq_get(&p->rx_mq, &msg);
 		nni_mtx_unlock(&ep->mtx);
 		nni_aio_finish_msg(aio, msg);
-		return;
-	}
-	if (!nni_aio_start(aio, udp_pipe_recv_cancel, p)) {
-		nni_mtx_unlock(&ep->mtx);
 		return;
 	}
 
